@@ -18,6 +18,7 @@ META = {
 
 
 def run(s):
+    K.suite_workload(s)
     if s.tier == 'quick':
         K.story_grid(s, 4, layouts=('none', 'between', 'everywhere'), kmax=3, full=False)
         K.fuzz(s, 240, K.kind_weights(story=1.0, item=0.15, other=0.2), steps=(5, 25))
